@@ -90,11 +90,13 @@ def _replacements():
     return by_id, rnd
 
 
-def install(repo_path='/repo'):
+def install(repo_path=None):
     """Import bridge_env from `repo_path` (forced first on sys.path) and install the seams.
     Returns a dict with the important module objects."""
     if _installed:
         return _installed
+    import os
+    repo_path = repo_path or os.environ.get('VERIF_REPO') or '/repo'
     if repo_path not in sys.path or sys.path[0] != repo_path:
         sys.path.insert(0, repo_path)
     import bridge_env  # noqa
